@@ -654,6 +654,13 @@ class CompilerPassGenerateCode(CompilerPass):
                     can_assign_directly = can_assign_directly and is_builtin_function(
                         node.value.func.name
                     )
+                if (
+                    isinstance(node.value, nodes.Subscript)
+                    and not node.value._ndata.is_constant
+                ):
+                    # [c][i]: the reads of the variable were not replaced by
+                    # the constant, so it needs its register
+                    can_assign_directly = False
                 if can_assign_directly:
                     sym_data.name = value  # self.get_constant_name()
                     # sym.name = value
